@@ -8,6 +8,7 @@ import (
 	"golang.org/x/tools/go/ssa"
 
 	"gfs3check/internal/core"
+	"gfs3check/internal/lockset"
 	"gfs3check/internal/oblig"
 )
 
@@ -42,6 +43,7 @@ func C06(r *core.Run) {
 	rule065(r)
 	rule066(r, ctx)
 	rule067(r)
+	rule068(r)
 }
 
 func rule061(r *core.Run) {
@@ -576,4 +578,116 @@ func rule067(r *core.Run) {
 func isIntVal(v ssa.Value) bool {
 	b, ok := v.Type().Underlying().(*types.Basic)
 	return ok && b.Info()&types.IsInteger != 0
+}
+
+// rule068 — a part's ETag always belongs to its body; lookup and removal of an upload are one critical section.
+func rule068(r *core.Run) {
+	r.Rule("R06.8", "every store to multipartUploadPart.Body is accompanied, on every path to a successful return, by a store to the ETag of that same part (a re-uploaded part cannot keep the ETag of its previous body); in CompleteMultipartUpload and AbortMultipartUpload uploader.mu is not released between the lookup of the upload and its removal (an abort or a second complete cannot slip in between)")
+	n := 0
+	for _, fn := range r.P.FuncsOfPkg("gofakes3") {
+		f := fn
+		if !strings.Contains(fname(r, f), "uploader") && !strings.Contains(fname(r, f), "multipartUpload") {
+			continue
+		}
+		bodyStores := []*ssa.Store{}
+		etagStores := map[ssa.Value][]*ssa.Store{} // by struct base
+		core.Instrs(f, func(in ssa.Instruction) {
+			st, ok := in.(*ssa.Store)
+			if !ok {
+				return
+			}
+			fa, ok := st.Addr.(*ssa.FieldAddr)
+			if !ok {
+				return
+			}
+			switch r.P.FieldName(fa) {
+			case "gofakes3.multipartUploadPart.Body":
+				bodyStores = append(bodyStores, st)
+			case "gofakes3.multipartUploadPart.ETag":
+				etagStores[fa.X] = append(etagStores[fa.X], st)
+			}
+		})
+		for i, bs := range bodyStores {
+			n++
+			base := bs.Addr.(*ssa.FieldAddr).X
+			ets := etagStores[base]
+			ok := len(ets) > 0
+			if ok {
+				// an ETag store of the same part before the body store (same literal), or on every path from it to success
+				before := false
+				for _, es := range ets {
+					if core.Dominates(es, bs) && !phiBase(base) {
+						before = true
+					}
+				}
+				// `before` only counts when the part is the fresh struct both stores initialise
+				if _, fresh := base.(*ssa.Alloc); !(before && fresh) {
+					for ret, ev := range returnedErrors(f) {
+						if !definitelyNil(r, core.BlockLocalLoad(ev)) || !core.Reaches(bs, ret) {
+							continue
+						}
+						if core.ReachesAvoiding(bs, ret, func(in ssa.Instruction) bool {
+							for _, es := range ets {
+								if in == ssa.Instruction(es) {
+									return true
+								}
+							}
+							return false
+						}) {
+							ok = false
+						}
+					}
+				}
+			}
+			r.Check(ok, "R06.8", key(fname(r, f), "ETag stored with the body", sprintf("#%d", i)), pos(r, bs), "Body and ETag of the part are set together",
+				"a part's Body is replaced on a path that does not set the ETag of that same part: a re-uploaded part keeps the ETag of its previous content (the fresh ETag is refused at complete, the stale one accepted)")
+		}
+	}
+	// one critical section from lookup to removal
+	a := newLockset(r)
+	for _, m := range []string{"gofakes3.(*uploader).CompleteMultipartUpload", "gofakes3.(*uploader).AbortMultipartUpload"} {
+		fn := mustFunc(r, m)
+		if fn == nil {
+			continue
+		}
+		var get, rem ssa.Instruction
+		core.Instrs(fn, func(in ssa.Instruction) {
+			if c, ok := in.(*ssa.Call); ok {
+				switch r.P.CalleeName(c) {
+				case "gofakes3.(*uploader).getUnlocked":
+					if get == nil {
+						get = c
+					}
+				case "gofakes3.(*bucketUploads).remove":
+					rem = c
+				}
+			}
+		})
+		if get == nil || rem == nil {
+			r.Unresolved("R06.8: lookup/removal anchors not found in %s", m)
+			continue
+		}
+		n++
+		released := false
+		core.Instrs(fn, func(in ssa.Instruction) {
+			op := a.Op(in)
+			if op == nil || op.Acquire || op.Deferred || op.Class != "gofakes3.uploader.mu" {
+				return
+			}
+			if core.Reaches(get, in) && core.Reaches(in, rem) {
+				released = true
+			}
+		})
+		heldAtRemove := a.MustAt(rem).Get("gofakes3.uploader.mu") != lockset.None && a.MustAt(get).Get("gofakes3.uploader.mu") != lockset.None
+		r.Check(!released && heldAtRemove, "R06.8", key(m, "lookup and removal in one critical section"), pos(r, rem), "uploader.mu held from getUnlocked to remove",
+			"uploader.mu is released between the lookup of the upload and its removal: an abort that arrives during a complete is acknowledged although the object is created, and two completes of one upload both store")
+	}
+	if n < 3 {
+		r.Unresolved("R06.8: %d instances (expected at least 3)", n)
+	}
+}
+
+func phiBase(v ssa.Value) bool {
+	_, ok := v.(*ssa.Phi)
+	return ok
 }
